@@ -5,7 +5,7 @@ from ..kinds import BOOL, SCALAR, UNKNOWN, Kinds
 from ..model import AnalysisError
 from ..norm import Normalizer, show_term
 from ..vgraph import FALSE, NONE, TRUE, Closure, Ctx, show, walk
-from .util import POS, elementwise, entails, fields, live, one
+from .util import POS, element_at_pos, elementwise, entails, fields, live, one
 
 EXPLANATION = (
     "Per space kind (Box, Discrete, MultiBinary, MultiDiscrete, Dict, Tuple), on every static path of the method: C14.1 contains "
@@ -235,8 +235,11 @@ def check(s):
         pf = one(s.paths(b, cls, "flatten_sample"), f"{cls}.flatten_sample")
         ps = one(s.paths(b, cls, "flat_size"), f"{cls}.flat_size")
         loc = s.loc(cls, "flatten_sample")
-        cf = [c for c in walk(pf.ret) if isinstance(c, tuple) and c and c[0] == "comp"]
-        cs = [c for c in walk(ps.ret) if isinstance(c, tuple) and c and c[0] == "comp"]
+        # the traversal is the comprehension handed to concatenate / sum (a sequence prepared beforehand and zipped in is read through it)
+        def outer_comps(r):
+            args = r[2] if isinstance(r, tuple) and r and r[0] == "call" else ()
+            return [c for c in args if isinstance(c, tuple) and c and c[0] == "comp"]
+        cf, cs = outer_comps(pf.ret), outer_comps(ps.ret)
         ok = len(cf) == 1 and len(cs) == 1
         s.ob("C14.8", f"{cls}.flatten_sample", ok, "flatten_sample and flat_size each traverse the components once", loc, key="one-traversal", detail=f"{len(cf)}/{len(cs)}")
         if not ok:
@@ -257,7 +260,7 @@ def check(s):
         oks = isinstance(ps.ret, tuple) and ps.ret[0] == "call" and ps.ret[1] == ("global", "sum")
         s.ob("C14.8", f"{cls}.flat_size", oks, "flat_size is the sum of the component flat sizes", s.loc(cls, "flat_size"), key="sum-sizes", detail=show(ps.ret, maxlen=160))
     for cls, want in (("Box", "reduce(operator.mul, self.shape, 1)"), ("Discrete", "1"), ("MultiBinary", "reduce(operator.mul, self.n, 1)"), ("MultiDiscrete", "len(self.nvec)")):
-        b = s.builder(inline=set())
+        b = s.builder(inline={"shape"})  # a flat_size written over self.shape is read through the shape property of the kind
         nz = Normalizer(b)
         ps = one(s.paths(b, cls, "flat_size"), f"{cls}.flat_size")
         pf = one(s.paths(b, cls, "flatten_sample"), f"{cls}.flatten_sample")
@@ -309,7 +312,7 @@ s4 = jnp.where(bb & ~ba, self.low + jr.exponential(K, self.shape), s3)
 def pairing_terms(cls, comp):
     self_ = ("param", "self")
     sp = ("attr", self_, "spaces")
-    ew = elementwise(comp, dicts=(sp, ("param", "x"), ("param", "sample")) if cls == "Dict" else ())
+    ew = element_at_pos(comp, dicts=(sp, ("param", "x"), ("param", "sample")) if cls == "Dict" else ())
     return sp, ew
 
 
